@@ -263,6 +263,8 @@ class Interp(object):
         missing = [p for p in params if p not in frame]
         if missing:
             raise Unsupported("missing args %s calling %s" % (missing, func.fullname))
+        if _body is None:
+            frame["@body"] = id(fnode)      # this frame runs fnode's own body (see e_Name: unbound locals)
         st.frames.append(frame)
         saved = (self.cur_func,)
         self.cur_func = func
